@@ -278,6 +278,7 @@ func init() {
 			{Name: "bytes", Run: c11Bytes},
 			{Name: "prefixes", Run: c11Prefixes},
 			{Name: "tokenlens", QShards: 2, TShards: 4, Run: c11TokenLens},
+			{Name: "fieldcounts", QShards: 2, TShards: 4, Run: c11FieldCounts},
 			{Name: "parallel", Race: true, QShards: 2, TShards: 6, Run: codecParallel("fasta", "fastq", "sam", "samh", "bed", "newick")},
 			{Name: "histories", QShards: 2, TShards: 6, Run: codecHistories("fasta", "fastq", "sam", "samh", "bed", "newick")},
 			{Name: "fuzz", Thorough: true, Run: c11Fuzz},
@@ -628,6 +629,77 @@ func c11Prefixes(c *Ctx) {
 			})
 			idx++
 		}
+	}
+}
+
+// c11FieldCounts: lines with EVERY number of fields / tags / values / children
+// from 0 to 300 (and 1000, 3000): SAM lines with k tags, BED lines with k
+// fields and k blocks, NCBI tables with k columns, Newick nodes with k children,
+// FASTA / FASTQ files of k records. A fixed-size field buffer, a small-array
+// fast path or a counter kept in a byte is right up to its size and wrong
+// beyond it; accepted lines must be fixed points, the others errors.
+func c11FieldCounts(c *Ctx) {
+	counts := []int{}
+	for kcnt := 0; kcnt <= 300; kcnt++ {
+		counts = append(counts, kcnt)
+	}
+	counts = append(counts, 1000, 3000)
+	var names []string
+	for _, a := range tagFirst {
+		for _, b := range tagSecond {
+			names = append(names, string([]rune{a, b}))
+		}
+	}
+	for i, kcnt := range counts {
+		c.Case(int64(i), func(k *K) {
+			r := k.Rand()
+			k.Input("count", kcnt)
+			var sam, bedBlocks, ncbi, nwk, fa, fq strings.Builder
+			sam.WriteString("q\t0\tr\t1\t2\t3M\t=\t4\t5\tACG\t!!!")
+			perm := r.Perm(len(names))
+			for j := 0; j < kcnt; j++ {
+				fmt.Fprintf(&sam, "\t%s:%s", names[perm[j%len(perm)]], pick(r, []string{"i:7", "Z:x", "f:0.5", "A:c", "H:1AE3"}))
+			}
+			sam.WriteString("\n")
+			sizes, starts := make([]string, kcnt), make([]string, kcnt)
+			for j := range sizes {
+				sizes[j], starts[j] = fmt.Sprint(1+j%9), fmt.Sprint(10*j)
+			}
+			fmt.Fprintf(&bedBlocks, "c\t1\t%d\tn\t5\t+\t1\t9\t1,2,3\t%d\t%s\t%s\n", 10*kcnt+20, kcnt, strings.Join(sizes, ","), strings.Join(starts, ","))
+			bedFields := "c" + strings.Repeat("\t1", kcnt) + "\n"
+			labels := make([]string, 0, kcnt)
+			for j := 0; j < kcnt && j < 200; j++ {
+				labels = append(labels, string([]byte{byte(33 + j)}))
+			}
+			ncbi.WriteString("  " + strings.Join(labels, " ") + "\n")
+			if len(labels) > 0 {
+				ncbi.WriteString(labels[0] + strings.Repeat(" 1", len(labels)) + "\n")
+			}
+			nwk.WriteString("(")
+			for j := 0; j < kcnt; j++ {
+				if j > 0 {
+					nwk.WriteString(",")
+				}
+				fmt.Fprintf(&nwk, "n%d:%d", j, j)
+			}
+			nwk.WriteString(")r;")
+			for j := 0; j < kcnt; j++ {
+				fmt.Fprintf(&fa, ">s%d\nACGT\n", j)
+				fmt.Fprintf(&fq, "@r%d\nAC\n+\n!!\n", j)
+			}
+			for _, in := range []struct{ f, x string }{{"sam", sam.String()}, {"bed", bedBlocks.String()}, {"bed", bedFields}, {"ncbi", ncbi.String()}, {"newick", nwk.String()}, {"fasta", fa.String()}, {"fastq", fq.String()}} {
+				k.Input("format", in.f)
+				k.Input("input", func() string { return describeText([]byte(in.x)) })
+				decodeTotal(k, in.f, []byte(in.x))
+				k.Count("inputs_"+in.f, 1)
+				k.Count("field_count_inputs", 1)
+				k.Evals(1)
+				if k.Failed() {
+					return
+				}
+			}
+			k.Nontrivial([]byte(fmt.Sprint("fieldcounts", kcnt)))
+		})
 	}
 }
 
